@@ -17,7 +17,13 @@ import (
 	"time"
 )
 
-const verifDir = "/verif"
+// verifDir is where evidence, replays and known_findings.json live (the directory of ./check).
+var verifDir = func() string {
+	if d := os.Getenv("KV_VERIF_DIR"); d != "" {
+		return d
+	}
+	return "/verif"
+}()
 
 func envInt(name string, def int) int {
 	if v := os.Getenv(name); v != "" {
